@@ -51,6 +51,7 @@ type fixture struct {
 	work  string
 	names []string
 	nodes []*fxNode
+	leak  map[int]bool // nodes that are not closed (see evalSync)
 }
 
 func splitHostPort(name string) (string, int, bool) {
@@ -159,8 +160,10 @@ func (fx *fixture) close() {
 	for _, fn := range fx.nodes {
 		fn.n.VerifDropRPCClients()
 	}
-	for _, fn := range fx.nodes {
-		fn.n.Close()
+	for i, fn := range fx.nodes {
+		if !fx.leak[i] {
+			fn.n.Close()
+		}
 	}
 	os.RemoveAll(fx.work)
 }
@@ -301,6 +304,13 @@ func evalSync(line string, names []string, me int, keys []string) string {
 		return "no-cluster:" + err.Error()
 	}
 	serr := fx.nodes[me].n.Sync()
+	if serr != nil {
+		// syncUserCollections returns at the FIRST error while the goroutines of the other destinations
+		// are still encoding values that point into the memory map of the node database: closing that
+		// database now would unmap it under them (fatal SIGSEGV). Leave this node open.
+		fx.leak = map[int]bool{me: true}
+		time.Sleep(50 * time.Millisecond)
+	}
 	out := make([]string, len(keys))
 	for j, k := range keys {
 		var hs []string
